@@ -36,6 +36,9 @@ Tr == Traces[tid]
 Ev == Tr.ev[ei]
 
 SeqSet(q) == { q[i] : i \in 1..Len(q) }
+\* blind = 1: the driver never asked the controller what is in force (asking is itself a call into the mechanism and
+\* would refresh anything it caches); such traces are judged on the datagrams alone
+Blind == Tr.blind = 1
 MethNamed(name) == Tr.meths[CHOOSE i \in 1..Len(Tr.meths) : Tr.meths[i][1] = name]
 KnownMeth(name) == \E i \in 1..Len(Tr.meths) : Tr.meths[i][1] = name
 IntOf(r) == r[2]
@@ -103,14 +106,14 @@ ApplicationMeth == MethNamed("application")
 
 Checks(e) ==
   CASE e[1] = "enter" ->
-        [EnterInForce |-> AsSet(e[3]) = Merged(Push(st.stack, e[2], <<>>)),
+        [EnterInForce |-> Blind \/ AsSet(e[3]) = Merged(Push(st.stack, e[2], <<>>)),
          NothingSentOnEnter |-> e[4] = <<>>]
     [] e[1] = "app" ->
         LET lacking == Lacking(ApplicationMeth, e[2], e[3], st.stack)
             a == IntOf(Resolved(ApplicationMeth, e[2], e[3], st.stack, "app_id"))
         IN CallClauses(ApplicationMeth, e[2], e[3], e[4], e[5]) @@
            [NothingSentOnEnter |-> e[5] = <<>>,
-            EnterInForce |-> IF lacking = {} /\ e[4] = <<"ok">>
+            EnterInForce |-> Blind \/ IF lacking = {} /\ e[4] = <<"ok">>
                              THEN AsSet(e[6]) = Merged(Push(st.stack, <<<<"app_id", a>>>>, <<a>>))
                              ELSE AsSet(e[6]) = Merged(st.stack)]
     [] e[1] = "exit" ->
@@ -119,7 +122,7 @@ Checks(e) ==
          \* by the machine, are recorded as "exception")
          ExitCompletes |-> e[2] \in {"normal", "exception"},
          \* leaving restores exactly what was in force before the block was entered
-         ExitRestores |-> Len(st.stack) > 1 => AsSet(e[4]) = Merged(Pop(st.stack)),
+         ExitRestores |-> (Len(st.stack) > 1 /\ ~Blind) => AsSet(e[4]) = Merged(Pop(st.stack)),
          \* an application block sends one stop signal, for its own id; any other block sends nothing
          ApplicationExitStops |-> Len(st.stack) > 1 =>
                 IF TopBlock.app = <<>> THEN e[3] = <<>>
@@ -131,7 +134,7 @@ Checks(e) ==
         ELSE BmpInvoke(e[2], e[3], e[4], e[5], e[6])
     [] e[1] = "end" ->
         [AllBlocksLeft |-> Len(st.stack) = 1,
-         ExitRestores  |-> AsSet(e[2]) = Merged(SubSeq(st.stack, 1, 1))]
+         ExitRestores  |-> Blind \/ AsSet(e[2]) = Merged(SubSeq(st.stack, 1, 1))]
     [] OTHER -> [UnknownEvent |-> FALSE]
 
 Apply(e) ==
